@@ -145,6 +145,11 @@ func genC12(rc *RunCtx) (*C1, *c12Info, bool) {
 		}
 	case 3: // truncation
 		l := 1 + t.Choose(n-1)
+		if t.Choose(3) == 0 {
+			l = n - 1 - t.Choose(min(2, n-1)) // the last byte or two never arrive
+		}
+		// (a frame whose last CRC byte is 0x00 stays CRC-consistent when that byte is cut off - the residue of a valid
+		// frame is zero one byte early - so that truncation is outside the premise and is left to C08's stall-after-prefix)
 		info.Pos = l
 		bad = bad[:l]
 	case 4: // extension by 1-6 bytes
